@@ -56,6 +56,7 @@ type Frame struct {
 	closure  *Closure
 	// callback continuation marker: when this frame returns, run continuation id
 	cont func(st *State, results []Val)
+	flagGuard string // feature flag whose IfSet/IfNotSet closure this frame (and its callees) runs under
 	// source-level names of locals (from DebugRef), for loop invariants
 	names map[string]namedRef
 }
@@ -96,6 +97,7 @@ type State struct {
 	pendingAx []pendingAxiom
 	ghosts map[string]Term // loop ghost arrays
 	curLoop int
+	released map[string]bool // locks released earlier on this path (atomicity rule)
 	regionMoved map[string]string // fresh map ref -> region it was stored into
 	calleeHavoc bool
 	localRefs []localRef // non-escaping locals of the functions on the stack
@@ -166,6 +168,12 @@ func (st *State) clone() *State {
 		n.loopEvStart = make(map[int]int, len(st.loopEvStart))
 		for k, v := range st.loopEvStart {
 			n.loopEvStart[k] = v
+		}
+	}
+	if st.released != nil {
+		n.released = make(map[string]bool, len(st.released))
+		for k, v := range st.released {
+			n.released[k] = v
 		}
 	}
 	if st.regionMoved != nil {
@@ -337,6 +345,11 @@ func (st *State) heapSetAt(name string, v Term, idx *Term) {
 	st.assume(Eq(n, v))
 	st.heap[name] = n
 	st.noteWrite(name, idx)
+	if st.dryWrites == nil && len(st.frames) > 0 {
+		if g := st.currentFlagGuard(); g != "" && !strings.HasPrefix(name, "ghost.") && !strings.HasPrefix(name, "cell:") && !strings.Contains(name, ":fresh:") && !(idx != nil && isFreshTerm(*idx)) {
+			st.obligeStaticFail("flag:state-write:"+name, []string{"C17"}, "server state ("+name+") is written inside the closure guarded by feature flag "+g+": the flag would change more than its message class")
+		}
+	}
 }
 
 // noteWrite: in dry-run mode remember which arrays the loop body writes, and whether every
@@ -814,4 +827,14 @@ func (st *State) requireNonNil(p Term, site string) {
 	st.oblige("safe:nil:"+site, []string{"C08"}, Neq(p, TZero), "nil dereference at "+site)
 	st.assume(Neq(p, TZero))
 	st.nonnil[p.S] = true
+}
+
+// currentFlagGuard: the feature flag guarding the code being executed ("" if none).
+func (st *State) currentFlagGuard() string {
+	for i := len(st.frames) - 1; i >= 0; i-- {
+		if st.frames[i].flagGuard != "" {
+			return st.frames[i].flagGuard
+		}
+	}
+	return ""
 }
